@@ -753,7 +753,24 @@ func (g *gen) typedCase(ops *typedOps, shape string, large bool) {
 	}
 	newLine := fmt.Sprintf("arr.new %s %s %s", ops.name, joinI32(idx), joinS(elts, ","))
 	hist := []string{clip(newLine)}
-	g.expect("C16 valid input accepted", nil, newLine, "ok")
+	if c.Rng.Intn(3) == 0 {
+		// HISTORY: the array object is not fresh — it was built from another valid set before (same element type,
+		// another shape, usually a longer span) and is now initialised again with Init.  What it answers must be the
+		// sparse map of the LAST set only.
+		pidx := g.indexSet(shapes[1+c.Rng.Intn(len(shapes)-1)], large)
+		pelts := make([]string, len(pidx))
+		for i := range pidx {
+			pelts[i] = eltText(ops, g.bits())
+		}
+		pre := fmt.Sprintf("arr.new %s %s %s", ops.name, joinI32(pidx), joinS(pelts, ","))
+		g.expect("C16 valid input accepted", nil, pre, "ok")
+		newLine = fmt.Sprintf("arr.reinit %s %s %s", ops.name, joinI32(idx), joinS(elts, ","))
+		hist = []string{clip(pre), clip(newLine)}
+		g.expect("C16 valid input accepted by Init on a used array", hist[:1], newLine, "ok")
+		c.Hit("history-reinit-valid")
+	} else {
+		g.expect("C16 valid input accepted", nil, newLine, "ok")
+	}
 	probes := g.probes(idx)
 	size := "small"
 	if large {
